@@ -41,7 +41,7 @@ def TiltEl.disp (e : TiltEl R) (z wl : R) : R × R := e.shift 0 0 z wl
 
 theorem TiltEl.shift_eq_add (e : TiltEl R) (xs ys z wl : R) :
     e.shift xs ys z wl = (xs + (e.disp z wl).1, ys + (e.disp z wl).2) := by
-  cases e <;> simp only [TiltEl.shift, TiltEl.disp, Gen.tiltShift] <;> refine Prod.ext ?_ ?_ <;> simp only <;> ring
+  cases e <;> simp only [TiltEl.shift, TiltEl.disp, Gen.tiltShift, Gen.dispersiveShift1] <;> refine Prod.ext ?_ ?_ <;> simp only <;> ring
 
 theorem foldl_shift (ts : List (TiltEl R)) (z wl : R) (p : R × R) :
     ts.foldl (fun p e => e.shift p.1 p.2 z wl) p =
@@ -51,6 +51,31 @@ theorem foldl_shift (ts : List (TiltEl R)) (z wl : R) (p : R × R) :
   | cons e es ih =>
     simp only [List.foldl_cons, List.map_cons, List.sum_cons]
     rw [ih, TiltEl.shift_eq_add]; refine Prod.ext ?_ ?_ <;> simp only <;> ring
+
+/-- a list of angular elements shifts like the single element with the summed angles -/
+theorem foldShift_angular_list (h0 : (RealLike.ofInt 0 : R) = 0) (ab : List (R × R)) (z wl : R) :
+    foldShift (ab.map fun p => TiltEl.angular p.1 p.2) z wl =
+      foldShift [TiltEl.angular (ab.map Prod.fst).sum (ab.map Prod.snd).sum] z wl := by
+  unfold foldShift
+  rw [foldl_shift, foldl_shift, h0]
+  simp only [List.map_map, List.map_cons, List.map_nil, List.sum_cons, List.sum_nil, add_zero, zero_add]
+  have hx : ∀ l : List (R × R), (l.map ((fun e : TiltEl R => (e.disp z wl).1) ∘ fun p => TiltEl.angular p.1 p.2)).sum
+      = ((TiltEl.angular (l.map Prod.fst).sum (l.map Prod.snd).sum : TiltEl R).disp z wl).1 := by
+    intro l
+    induction l with
+    | nil => simp [TiltEl.disp, TiltEl.shift, Gen.tiltShift]
+    | cons p l ih =>
+      simp only [List.map_cons, List.sum_cons, Function.comp, ih]
+      simp only [TiltEl.disp, TiltEl.shift, Gen.tiltShift]; ring
+  have hy : ∀ l : List (R × R), (l.map ((fun e : TiltEl R => (e.disp z wl).2) ∘ fun p => TiltEl.angular p.1 p.2)).sum
+      = ((TiltEl.angular (l.map Prod.fst).sum (l.map Prod.snd).sum : TiltEl R).disp z wl).2 := by
+    intro l
+    induction l with
+    | nil => simp [TiltEl.disp, TiltEl.shift, Gen.tiltShift]
+    | cons p l ih =>
+      simp only [List.map_cons, List.sum_cons, Function.comp, ih]
+      simp only [TiltEl.disp, TiltEl.shift, Gen.tiltShift]; ring
+  rw [hx, hy]
 end shift
 
 section fit
